@@ -130,7 +130,7 @@ fn(GR, 'sparse_relative_indegree', kind='free', status='P', props=['C15', 'C17',
             ('C15.sparse-indegree-wf', 'r.0.wf() && r.1.wf()')],
    proofs=[('start', '''lemma_seg_wf_sources(a.sources, a.values.table@.len());
             lemma_injective_selection(a.sources.table@, f.table@);'''),
-           ('before:let target = a.values.source()', '''assert forall|k: int| 0 <= k < i@.len() implies (#[trigger] i@[k]) < a.sources.table@.len() by {
+           ('after:let (i, c) = g.table.sparse_bincount();', '''assert forall|k: int| 0 <= k < i@.len() implies (#[trigger] i@[k]) < a.sources.table@.len() by {
                 lemma_count_bounds(g.table@, i@[k] as int, g.table@.len() as int);
                 assert(c@[k] == count(g.table@, i@[k] as int, g.table@.len() as int) && c@[k] > 0);
                 let w = lemma_count_witness(g.table@, i@[k] as int, g.table@.len() as int);
